@@ -36,6 +36,9 @@ def run(ctx):
     worker_half(ctx)
     # the controller-level engine assumes that a command reaches its executor exactly once; that is what the Listener's memory of
     # seen Syns provides: judged here on the real Listener as well (several senders, long histories)
-    from .c06 import senders_part
+    from .c06 import replay_part, senders_part
     senders_part(ctx)
+    # ... and a sample of the behaviours of spec/Acked.tla (loss, duplication, re-sends) replayed into the real sender/listener pair
+    n, _ = replay_part(ctx, 100 if ctx.quick else 600)
+    ctx.coverage["acked_behaviours_replayed"] = n
     ctx.coverage["traces_validated_against_impl"] += ctx.coverage["worker_message_orders"]
